@@ -602,3 +602,133 @@ Proof.
   destruct r, w, t, c, cn, ap; cbn; intros H; try discriminate H;
     injection H as <-; repeat split; reflexivity.
 Qed.
+
+(* ---------------------------------------------------------------------- *)
+(* the creation mode                                                       *)
+
+Lemma open_request_mode o m fl m' :
+  open_request o m = Rok (fl, m') -> m' = m /\ open_flags o = Rok fl.
+Proof.
+  unfold open_request. destruct (open_flags o) as [f|e]; intros H; inversion H; subst.
+  split; reflexivity.
+Qed.
+
+Lemma open_request_total o m :
+  (exists fl, open_request o m = Rok (fl, m)) \/ open_request o m = Rerr E_INVALID_INPUT.
+Proof.
+  unfold open_request. destruct (open_flags_error o) as [[fl E]|E]; rewrite E;
+    [left; eexists; reflexivity|right; reflexivity].
+Qed.
+
+Lemma get_inode_fresh nodes0 l x :
+  get_inode (mkfs nodes0 (l ++ [x])) (length l) = x.
+Proof.
+  unfold get_inode. cbn [inodes]. rewrite app_nth2 by lia. rewrite Nat.sub_diag. reflexivity.
+Qed.
+
+(* O_TMPFILE: a successful open yields an unnamed regular file whose mode is
+   mode & ~umask; the name space is unchanged *)
+Theorem tmpfile_mode fs p fl m seq fs' h :
+  has_flag fl O_TMPFILE_BIT = true ->
+  fs_open fs p fl m seq = (fs', Rok h) ->
+  exists i, hk h = HFile i /\ h_perm fs' h = created_mode m /\ nodes fs' = nodes fs /\
+            idata (get_inode fs' i) = [].
+Proof.
+  intros HT. unfold fs_open. rewrite HT.
+  destruct (negb (has_flag fl O_DIRECTORY) || has_flag fl O_CREAT
+            || negb (negb (N.land fl O_ACCMODE =? O_RDONLY)%N))%bool; [intros H; discriminate H|].
+  destruct (resolve fs p (negb (has_flag fl O_NOFOLLOW))) as [q|e]; [|intros H; discriminate H].
+  destruct (kind_at fs q); try (intros H; discriminate H).
+  unfold create_anon. intros H. inversion H; subst. clear H.
+  eexists. split; [reflexivity|]. unfold h_perm. cbn [hk].
+  rewrite get_inode_fresh. cbn [imode idata nodes]. repeat split.
+Qed.
+
+(* O_CREAT | O_EXCL: the file the call creates gets mode & ~umask *)
+Theorem create_new_mode fs p fl m seq fs' h :
+  has_flag fl O_TMPFILE_BIT = false -> has_flag fl O_CREAT = true -> has_flag fl O_EXCL = true ->
+  fs_open fs p fl m seq = (fs', Rok h) ->
+  h_perm fs' h = created_mode m.
+Proof.
+  intros HT HC HE. unfold fs_open. rewrite HT, HC, HE. cbn [andb].
+  destruct (has_flag fl O_DIRECTORY); [intros H; discriminate H|].
+  destruct (resolve fs p false) as [q|e]; [|intros H; discriminate H].
+  destruct (kind_at fs q); try (intros H; discriminate H).
+  unfold create_file. intros H. inversion H; subst. clear H.
+  unfold h_perm. cbn [hk]. rewrite get_inode_fresh. reflexivity.
+Qed.
+
+Lemma created_mode_umask m : N.land (created_mode m) UMASK = 0%N.
+Proof.
+  unfold created_mode. apply N.bits_inj. intros k.
+  rewrite N.land_spec, N.ldiff_spec, N.bits_0.
+  destruct (N.testbit UMASK k); [rewrite andb_false_r|rewrite andb_false_r]; reflexivity.
+Qed.
+
+(* which of compio's flag words make the kernel consume the mode *)
+Theorem mode_consumed_iff r w t c cn (tmp : bool) fl :
+  open_flags (mkopts r w t c cn (if tmp then O_TMPFILE else 0%N)) = Rok fl ->
+  mode_consumed fl = (c || cn || tmp)%bool.
+Proof.
+  destruct r, w, t, c, cn, tmp; vm_compute; intros H; try discriminate H;
+    injection H as <-; reflexivity.
+Qed.
+
+(* ---------------------------------------------------------------------- *)
+(* create_dir_all: the "already a directory" check follows symbolic links   *)
+
+Lemma walk_nofollow_exists fuel fs : forall cur rest q,
+  walk fuel fs cur rest true = Rok q -> kind_at fs q = KDir ->
+  exists q', walk fuel fs cur rest false = Rok q' /\ kind_at fs q' <> KNone.
+Proof.
+  induction fuel as [|fuel IH]; intros cur rest q H K; [discriminate H|].
+  cbn [walk] in *. destruct rest as [|c rest'].
+  - inversion H; subst. exists q. split; [reflexivity|]. rewrite K. discriminate.
+  - destruct (kind_at fs cur) eqn:KC; try discriminate H.
+    destruct (lookup (nodes fs) (cur ++ (c :: nil))) as [[|i|t]|] eqn:L.
+    + apply (IH _ _ _ H K).
+    + apply (IH _ _ _ H K).
+    + destruct rest' as [|c' rest''].
+      * exists (cur ++ (c :: nil)). split; [reflexivity|].
+        unfold kind_at. destruct (cur ++ (c :: nil)) eqn:E; [destruct cur; discriminate E|].
+        rewrite L. discriminate.
+      * apply (IH _ _ _ H K).
+    + apply (IH _ _ _ H K).
+Qed.
+
+Lemma resolve_nofollow_exists fs p q :
+  resolve fs p true = Rok q -> kind_at fs q = KDir ->
+  exists q', resolve fs p false = Rok q' /\ kind_at fs q' <> KNone.
+Proof. unfold resolve. generalize WALK_FUEL. intros n. apply walk_nofollow_exists. Qed.
+
+Lemma mkdir_exists fs p q' :
+  resolve fs p false = Rok q' -> kind_at fs q' <> KNone ->
+  fs_mkdir fs p = (fs, Rerr E_ALREADY_EXISTS).
+Proof.
+  intros R' K'. unfold fs_mkdir. rewrite R'.
+  destruct (kind_at fs q'); try reflexivity. contradiction.
+Qed.
+
+Lemma mkdir_all_when_exists fuel fs p e :
+  p <> [] -> fs_mkdir fs p = (fs, Rerr e) -> (e =? E_NOT_FOUND)%N = false ->
+  fs_is_dir fs p = true -> fs_mkdir_all (S fuel) fs p = (fs, Rok tt).
+Proof.
+  intros Hp M E D. destruct p as [|c p']; [contradiction|].
+  cbn [fs_mkdir_all]. rewrite M, E, D. reflexivity.
+Qed.
+
+Lemma is_dir_inv fs p :
+  fs_is_dir fs p = true -> exists q, resolve fs p true = Rok q /\ kind_at fs q = KDir.
+Proof.
+  unfold fs_is_dir. destruct (resolve fs p true) as [q|e]; [|intros H; discriminate H].
+  destruct (kind_at fs q) eqn:K; intros H; try discriminate H. exists q. split; [reflexivity|exact K].
+Qed.
+
+Theorem mkdir_all_existing_dir fuel fs p :
+  p <> [] -> fs_is_dir fs p = true -> fs_mkdir_all (S fuel) fs p = (fs, Rok tt).
+Proof.
+  intros Hp Hd. destruct (is_dir_inv fs p Hd) as (q & R & K).
+  destruct (resolve_nofollow_exists fs p q R K) as (q' & R' & K').
+  apply (mkdir_all_when_exists fuel fs p E_ALREADY_EXISTS Hp (mkdir_exists fs p q' R' K')
+           eq_refl Hd).
+Qed.
